@@ -800,7 +800,7 @@ func (r *runner) nativeRun(u *UnitCfg, pkgName string, tape string) (string, err
 	if r.modfile != "" {
 		args = append(args, "-modfile="+r.modfile)
 	}
-	args = append(args, "-run", "^TestVerifReplay$", "-v", u.Package)
+	args = append(args, "-timeout", "120s", "-run", "^TestVerifReplay$", "-v", u.Package)
 	cmd := exec.Command("go", args...)
 	cmd.Dir = r.repo
 	cmd.Env = append(os.Environ(), "VERIF_TAPE="+tape, "GOFLAGS=-mod=mod", "GOPROXY=off", "GOSUMDB=off", "GOTOOLCHAIN=local")
